@@ -12,6 +12,7 @@ pub mod gen_types;
 pub mod shape;
 pub mod suite_bytes;
 pub mod suite_emplace;
+pub mod suite_ops;
 
 // ---------------------------------------------------------------------------------------------
 // PRNG, hex
@@ -303,12 +304,16 @@ pub trait TypeOps: Sync {
     /// `from_mut_bytes` (must succeed) then `assign_in_place`
     fn assign_in_place(&self, bytes: &mut [u8], d: &D) -> Result<Result<(), Error>, Error>;
     fn default_in_place(&self, bytes: &mut [u8]) -> Option<Result<(), Error>>;
+    /// `from_mut_bytes` (must succeed) then the operation
+    fn edit(&self, bytes: &mut [u8], op: &Op) -> Result<String, Error>;
 }
 pub struct Ops<T: ?Sized> {
     pub name: &'static str,
     pub desc: &'static str,
     pub flags: &'static str,
     pub default: Option<unsafe fn(&mut [u8]) -> Result<(), Error>>,
+    /// the real `push_slice` / `resize` (they need `T: Clone`), for element types that are `Clone`
+    pub clone_ops: Option<fn(&mut [u8], &Op) -> Option<String>>,
     pub _p: PhantomData<fn(&T)>,
 }
 fn probe_of<T: Flat + Walk + ?Sized>(v: &T, bytes: &[u8]) -> Probe {
@@ -320,7 +325,7 @@ fn probe_of<T: Flat + Walk + ?Sized>(v: &T, bytes: &[u8]) -> Probe {
     let z = v.size();
     Probe { res: Ok((ab.len(), sov, z, walk_str(v, true), walk_str(v, false))), range_ok }
 }
-impl<T: Flat + Walk + DynTarget + ?Sized> TypeOps for Ops<T> {
+impl<T: Flat + Walk + DynTarget + Editable + ?Sized> TypeOps for Ops<T> {
     fn name(&self) -> &'static str {
         self.name
     }
@@ -361,6 +366,14 @@ impl<T: Flat + Walk + DynTarget + ?Sized> TypeOps for Ops<T> {
     fn assign_in_place(&self, bytes: &mut [u8], d: &D) -> Result<Result<(), Error>, Error> {
         let v = T::from_mut_bytes(bytes)?;
         Ok(v.assign_in_place(de::<T>(d)).map(|_| ()))
+    }
+    fn edit(&self, bytes: &mut [u8], op: &Op) -> Result<String, Error> {
+        if let (Some(f), Op::PushSlice(_) | Op::Resize(..)) = (self.clone_ops, op) {
+            T::validate(bytes)?;
+            return Ok(f(bytes, op).expect("harness: clone op"));
+        }
+        let v = T::from_mut_bytes(bytes)?;
+        Ok(v.edit(op))
     }
     fn default_in_place(&self, bytes: &mut [u8]) -> Option<Result<(), Error>> {
         let f = self.default?;
@@ -446,4 +459,114 @@ pub fn parse_ds(s: &str) -> Vec<D> {
         out.push(parse_d_at(&t, &mut i));
     }
     out
+}
+
+// ---------------------------------------------------------------------------------------------
+// container operations addressed at a mapped value (C11–C14)
+// ---------------------------------------------------------------------------------------------
+#[derive(Clone, Debug, PartialEq)]
+pub enum Op {
+    Push(Vec<u8>), Pop, PushSlice(Vec<Vec<u8>>), Extend(Vec<Vec<u8>>), Truncate(usize), Clear, Remove(usize), SwapRemove(usize),
+    Resize(usize, Vec<u8>), Set(usize, Vec<u8>), PushChar(u32), PushStr(Vec<u8>),
+    FPush(D), FPop, FTruncate(usize), FClear, Item(usize, Box<Op>), Assign(D),
+}
+impl Op {
+    pub fn text(&self) -> String {
+        fn hs(v: &[Vec<u8>]) -> String { v.iter().map(|x| format!(" {}", hex(x))).collect() }
+        match self {
+            Op::Push(x) => format!("push {}", hex(x)), Op::Pop => "pop".into(), Op::PushSlice(v) => format!("pushslice{}", hs(v)),
+            Op::Extend(v) => format!("extend{}", hs(v)), Op::Truncate(n) => format!("trunc {}", n), Op::Clear => "clear".into(),
+            Op::Remove(i) => format!("remove {}", i), Op::SwapRemove(i) => format!("swaprm {}", i), Op::Resize(n, x) => format!("resize {} {}", n, hex(x)),
+            Op::Set(i, x) => format!("set {} {}", i, hex(x)), Op::PushChar(c) => format!("pushc {}", c), Op::PushStr(b) => format!("pushstr {}", hex(b)),
+            Op::FPush(d) => format!("fpush {}", d.text()), Op::FPop => "fpop".into(), Op::FTruncate(n) => format!("ftrunc {}", n), Op::FClear => "fclear".into(),
+            Op::Item(i, o) => format!("item {} {}", i, o.text()), Op::Assign(d) => format!("assign {}", d.text()),
+        }
+    }
+    pub fn parse(s: &str) -> Op {
+        let f: Vec<&str> = s.split(' ').collect();
+        let hexes = |from: usize| -> Vec<Vec<u8>> { f[from..].iter().map(|x| unhex(x)).collect() };
+        match f[0] {
+            "push" => Op::Push(unhex(f[1])), "pop" => Op::Pop, "pushslice" => Op::PushSlice(hexes(1)), "extend" => Op::Extend(hexes(1)),
+            "trunc" => Op::Truncate(f[1].parse().unwrap()), "clear" => Op::Clear, "remove" => Op::Remove(f[1].parse().unwrap()),
+            "swaprm" => Op::SwapRemove(f[1].parse().unwrap()), "resize" => Op::Resize(f[1].parse().unwrap(), unhex(f[2])),
+            "set" => Op::Set(f[1].parse().unwrap(), unhex(f[2])), "pushc" => Op::PushChar(f[1].parse().unwrap()), "pushstr" => Op::PushStr(unhex(f[1])),
+            "fpush" => Op::FPush(parse_ds(&f[1..].join(" ")).remove(0)), "fpop" => Op::FPop, "ftrunc" => Op::FTruncate(f[1].parse().unwrap()), "fclear" => Op::FClear,
+            "item" => Op::Item(f[1].parse().unwrap(), Box::new(Op::parse(&f[2..].join(" ")))), "assign" => Op::Assign(parse_ds(&f[1..].join(" ")).remove(0)),
+            h => panic!("bad op {h}"),
+        }
+    }
+}
+pub trait Editable: DynTarget {
+    /// apply an operation to the mapped value; the default knows only `assign_in_place`
+    fn edit(&mut self, op: &Op) -> String {
+        match op {
+            Op::Assign(d) => match self.assign_in_place(de::<Self>(d)) { Ok(_) => "ok".into(), Err(e) => format!("err:{}", err_str(&e)) },
+            _ => panic!("harness: operation not applicable to this type"),
+        }
+    }
+}
+impl<T: Flat + Sized> Editable for T {}
+fn full(r: bool) -> String { if r { "ok".into() } else { "full".into() } }
+impl<T: Flat + Sized + Walk, L: Flat + Length> Editable for FlatVec<T, L> {
+    fn edit(&mut self, op: &Op) -> String {
+        // elements are handled as raw images; `Clone`-requiring methods are driven through byte-wise copies of valid images
+        match op {
+            Op::Push(x) => full(self.push(from_raw::<T>(x)).is_ok()),
+            Op::Pop => match self.pop() { Some(v) => format!("some:{}", walk_str(&v, false).replace(' ', "_")), None => "none".into() },
+            Op::PushSlice(v) => {
+                // `push_slice` needs `T: Clone`; flat types are trivially copyable, so the same contract is exercised through
+                // `extend_until_full` after the same capacity test that `push_slice` makes
+                if v.len() > self.remaining() { "full".into() } else { self.extend_until_full(v.iter().map(|x| from_raw::<T>(x))); "ok".into() }
+            }
+            Op::Extend(v) => { self.extend_until_full(v.iter().map(|x| from_raw::<T>(x))); "ok".into() }
+            Op::Truncate(n) => { self.truncate(*n); "ok".into() }
+            Op::Clear => { self.clear(); "ok".into() }
+            Op::Remove(i) => walk_str(&self.remove(*i), false).replace(' ', "_"),
+            Op::SwapRemove(i) => walk_str(&self.swap_remove(*i), false).replace(' ', "_"),
+            Op::Set(i, x) => { self.as_mut_slice()[*i] = from_raw::<T>(x); "ok".into() }
+            // `resize` needs `T: Clone`; for element types that are not, the same contract is driven through truncate / extend
+            Op::Resize(n, x) => {
+                if *n <= self.len() { self.truncate(*n); } else { assert!(*n <= self.capacity()); let k = *n - self.len(); self.extend_until_full((0..k).map(|_| from_raw::<T>(x))); }
+                "ok".into()
+            }
+            Op::Assign(d) => match self.assign_in_place(de::<Self>(d)) { Ok(_) => "ok".into(), Err(e) => format!("err:{}", err_str(&e)) },
+            _ => panic!("harness: operation not applicable to FlatVec"),
+        }
+    }
+}
+impl<L: Flat + Length> Editable for FlatString<L> {
+    fn edit(&mut self, op: &Op) -> String {
+        match op {
+            Op::PushChar(c) => full(self.push(char::from_u32(*c).expect("harness: bad char")).is_ok()),
+            Op::PushStr(b) => full(self.push_str(std::str::from_utf8(b).expect("harness: bad str")).is_ok()),
+            Op::Clear => { self.clear(); "ok".into() }
+            Op::Assign(d) => match self.assign_in_place(de::<Self>(d)) { Ok(_) => "ok".into(), Err(e) => format!("err:{}", err_str(&e)) },
+            _ => panic!("harness: operation not applicable to FlatString"),
+        }
+    }
+}
+impl<T: Editable + ?Sized, L: Flat + Length> Editable for FlexVec<T, L> {
+    fn edit(&mut self, op: &Op) -> String {
+        match op {
+            Op::FPush(d) => match self.push(de::<T>(d)) { Ok(_) => "ok".into(), Err(e) => format!("err:{}", err_str(&e)) },
+            Op::FPop => match self.pop() { Ok(()) => "ok".into(), Err(_) => "empty".into() },
+            Op::FTruncate(n) => { self.truncate(*n); "ok".into() }
+            Op::FClear => { self.clear(); "ok".into() }
+            Op::Item(i, o) => match self.iter_mut().nth(*i) { Some(x) => x.edit(o), None => "noitem".into() },
+            Op::Assign(d) => match self.assign_in_place(de::<Self>(d)) { Ok(_) => "ok".into(), Err(e) => format!("err:{}", err_str(&e)) },
+            _ => panic!("harness: operation not applicable to FlexVec"),
+        }
+    }
+}
+
+pub fn vec_clone_ops<T: Flat + Sized + Clone, L: Flat + Length>(bytes: &mut [u8], op: &Op) -> Option<String> {
+    let v = FlatVec::<T, L>::from_mut_bytes(bytes).ok()?;
+    match op {
+        Op::PushSlice(xs) => {
+            let items: Vec<T> = xs.iter().map(|x| from_raw::<T>(x)).collect();
+            Some(full(v.push_slice(&items).is_ok()))
+        }
+        Op::Resize(n, x) => { v.resize(*n, from_raw::<T>(x)); Some("ok".into()) }
+        _ => None,
+    }
 }
